@@ -59,7 +59,11 @@ def _case(draw):
             "dt": draw(st.sampled_from([0.01, 0.02])), "nsteps": draw(st.integers(10, 40)), "fps": 10.0 ** draw(gen.f(0.0, 2.3)),
             "ascii": draw(st.booleans()),
             # the point mass is additionally exported under a file name that is already taken (the rigid body's)
-            "same_name": draw(st.booleans())}
+            "same_name": draw(st.booleans()),
+            # a second ball with its own contact (the two contacts are also exported as one list), and optionally a plane that
+            # tilts about an axis through an origin away from the world origin (frictionless then, see C06)
+            "ball2": {"mass": draw(gen.f(0.5, 2.0)), "vx": draw(gen.f(-1.0, 1.0)), "vz": draw(gen.f(-1.5, -0.2)), "h": draw(gen.f(0.05, 0.4))},
+            "tilt": {"rate": draw(gen.f(-0.3, 0.3)), "origin": [draw(gen.f(-1, 1)), draw(gen.f(-1, 1)), 0.0]} if draw(st.integers(0, 2)) == 0 else None}
 
 
 def strategy(tier):
@@ -105,6 +109,10 @@ def check(spec):
     res.label("kind:" + spec["kind"], "ascii" if spec["ascii"] else "binary_requested")
     if spec.get("same_name"):
         res.label("two_exports_under_one_file_name")
+    if spec.get("tilt"):
+        res.label("plane:tilting_about_offset_origin")
+    if spec.get("ball2"):
+        res.label("contact_list_export")
     return res
 
 
@@ -166,8 +174,26 @@ def _dynamic(spec, res, feats, tmp, Export):
     w = spec["pm_rate"] * np.array([0.0, 1.0, 0.0])
     pm = PointMass(0.7, q0=pm_r, u0=np.cross(w, pm_r), name="pm")
     mover = build.make_frame(spec["motion"], name="mover")
-    ground = Frame(name="ground")
-    contact = Sphere2Plane(ground, ball, mu=spec["mu"], r=spec["radius"], e_N=spec["e_N"], name="contact")
+    tilt = spec.get("tilt")
+    mu = 0.0 if tilt else spec["mu"]
+    if tilt:
+        rate, rQ = tilt["rate"], np.array(tilt["origin"], dtype=float)
+        ex = np.array([1.0, 0.0, 0.0])
+        Kx = gen._skew(ex)
+        ground = Frame(r_OP=rQ, A_IB=lambda t_: gen._exp(ex * rate * t_), A_IB_t=lambda t_: rate * Kx @ gen._exp(ex * rate * t_),
+                       A_IB_tt=lambda t_: rate * rate * Kx @ Kx @ gen._exp(ex * rate * t_), name="ground")
+    else:
+        rate, rQ = 0.0, np.zeros(3)
+        ground = Frame(name="ground")
+    contact = Sphere2Plane(ground, ball, mu=mu, r=spec["radius"], e_N=spec["e_N"], name="contact")
+    b2 = spec.get("ball2")
+    ball2 = contact2 = grav_b2 = None
+    if b2:
+        from cardillo.discrete import RigidBody
+        ball2 = RigidBody(b2["mass"], 0.4 * b2["mass"] * 0.15**2 * np.eye(3), q0=np.array([1.5, 0.4, 0.15 + b2["h"], 1.0, 0, 0, 0]),
+                          u0=np.array([b2["vx"], 0.0, b2["vz"] if b2["h"] > 0 else 0.0, 0.0, 2.0, 0.0]), name="ball2")
+        contact2 = Sphere2Plane(ground, ball2, mu=mu, r=0.15, e_N=0.0, name="contact2")
+        grav_b2 = Force(np.array([0, 0, -9.81]) * b2["mass"], ball2, name="grav_ball2")
     link = FixedDistance(system.origin, pm)
     link.name = "link"
     grav_b = Force(np.array([0, 0, -9.81]) * spec["ball"]["mass"], ball, name="grav_ball")
@@ -175,6 +201,8 @@ def _dynamic(spec, res, feats, tmp, Export):
     tpi = sysbuild.make_tpi({"B1": [0.0, 0.0, 2.0], "B2": [0.05, 0.0, 0.0], "name": "tpi"}, system.origin, ball)
     spring = sysbuild.make_force_law({"type": "Spring", "k": spec["k"], "l_ref": 1.5, "compliance": False}, tpi)
     system.add(ball, pm, mover, ground, contact, link, grav_b, grav_p, tpi, spring)
+    if b2:
+        system.add(ball2, contact2, grav_b2)
     with quiet():
         system.assemble(options=dynbuild.options(fixed_point_atol=1e-8))
     dt, n = spec["dt"], spec["nsteps"]
@@ -194,6 +222,8 @@ def _dynamic(spec, res, feats, tmp, Export):
         e.export_contr(link)
         e.export_contr(spring)
         e.export_contr([grav_b, grav_p], file_name="gravity")
+        if b2:
+            e.export_contr([contact, contact2], file_name="contacts")
         if spec.get("same_name"):
             e.export_contr(pm, file_name="ball")  # Export must pick a free name ("ball1") and leave "ball" alone
     folder = os.path.join(tmp, "out")
@@ -233,18 +263,50 @@ def _dynamic(spec, res, feats, tmp, Export):
         _cmp(res, "vectors_equal_state:Omega", "Frame", feats, cd.get("Omega"), [A @ Bw], f"row {k}")
         _cmp(res, "vectors_equal_state:ex", "Frame", feats, cd.get("ex"), [A[:, 0]], f"row {k}")
     # ---- contact -----------------------------------------------------------------------------------
-    P_N = np.asarray(sol.P_N)
-    for k, p in _frames(res, "Sphere2Plane", feats, folder, "contact", t):
-        pts, cd, pd = read_vtu(p)
-        c = q[k][ball.qDOF][:3]
-        nvec = np.array([0.0, 0.0, 1.0])
-        gN = c[2] - spec["radius"]
-        want = [c - spec["radius"] * nvec, c - nvec * (gN + spec["radius"])]
-        _cmp(res, "points_equal_geometry", "Sphere2Plane", feats, pts, want, f"row {k}")
-        _cmp(res, "vectors_equal_state:g_N", "Sphere2Plane", feats, cd.get("g_N"), [[gN]] if np.ndim(cd.get("g_N")) == 2 else [gN], f"row {k}")
-        pn = pd.get("P_N")
-        if pn is not None:
-            _cmp(res, "vectors_equal_state:P_N", "Sphere2Plane", feats, np.asarray(pn).reshape(-1), [P_N[k][0], P_N[k][0]], f"row {k}")
+    P_N, P_F = np.asarray(sol.P_N), (np.asarray(sol.P_F) if sol.P_F is not None else None)
+
+    def contact_rows(k, cobj, body, radius):
+        """expected points / point data / cell data of one Sphere2Plane contact at row k"""
+        tk = t[k]
+        A2 = gen._exp(np.array([1.0, 0.0, 0.0]) * rate * tk)
+        nvec = A2[:, 2]
+        om2 = np.array([1.0, 0.0, 0.0]) * rate
+        qb, ub = q[k][body.qDOF], u[k][body.uDOF]
+        c = qb[:3]
+        Rb = gen.quat_to_R(qb[3:])
+        gN = float(nvec @ (c - rQ) - radius)
+        pC1 = c - radius * nvec
+        pC2 = c - nvec * (gN + radius)
+        om1 = Rb @ ub[3:]
+        v1 = ub[:3] + np.cross(om1, pC1 - c)
+        v2 = np.cross(om2, pC2 - rQ)
+        i = int(cobj.la_NDOF[0])
+        out = {"points": [pC1, pC2], "v_Ci": [v1, v2], "Omega": [om1, om2], "n": [-nvec, nvec],
+               "P_N": [P_N[k][i], P_N[k][i]], "g_N": gN}
+        if hasattr(cobj, "la_FDOF") and P_F is not None and mu > 0:
+            pf = P_F[k][np.asarray(cobj.la_FDOF, dtype=int)]
+            out["P_F"] = [pf, pf]
+        return out
+
+    def check_contacts(coll, members, site_):
+        for k, p in _frames(res, site_, feats, folder, coll, t):
+            pts, cd, pd = read_vtu(p)
+            rows = [contact_rows(k, cobj, body, radius) for cobj, body, radius in members]
+            _cmp(res, "points_equal_geometry", site_, feats, pts, [x for r_ in rows for x in r_["points"]], f"row {k}")
+            for key in ("v_Ci", "Omega", "n"):
+                if key in pd:
+                    _cmp(res, "vectors_equal_state:" + key, site_, feats, pd[key], [x for r_ in rows for x in r_[key]], f"row {k}")
+            if "P_N" in pd:
+                _cmp(res, "vectors_equal_state:P_N", site_, feats, np.asarray(pd["P_N"]).reshape(-1), [x for r_ in rows for x in r_["P_N"]], f"row {k}")
+            if "P_F" in pd and all("P_F" in r_ for r_ in rows):
+                _cmp(res, "vectors_equal_state:P_F", site_, feats, np.asarray(pd["P_F"]).reshape(len(rows) * 2, -1),
+                     [x for r_ in rows for x in r_["P_F"]], f"row {k}")
+            if "g_N" in cd:
+                _cmp(res, "vectors_equal_state:g_N", site_, feats, np.asarray(cd["g_N"]).reshape(-1), [r_["g_N"] for r_ in rows], f"row {k}")
+
+    check_contacts("contact", [(contact, ball, spec["radius"])], "Sphere2Plane")
+    if b2:
+        check_contacts("contacts", [(contact, ball, spec["radius"]), (contact2, ball2, 0.15)], "Sphere2Plane(list)")
     # ---- fixed distance and two-point interaction ---------------------------------------------------
     for k, p in _frames(res, "FixedDistance", feats, folder, "link", t):
         pts, _, _ = read_vtu(p)
